@@ -123,20 +123,21 @@ def _root_.Pyttb.ML.Res.toColumn [Add α] [Zero α] (r : ML.Res α) (len : Nat) 
   | .scalar v => List.replicate len v
   | r => (List.range len).map fun k => r.get [k]
 
-/-- `sptensor.mttkrp(U, n)`: a `ttv` with all but mode `n` per column. -/
+/-- `sptensor.mttkrp(U, n)`: the mode and the factor shapes `(shape[i], R)` are validated up
+front, then one `ttv` with all but mode `n` per column. -/
 def mttkrp [Add α] [Mul α] [Zero α] [BEq α] (S : Sparse α) (U : KOperand α) (n : Nat) : Except Reject (Mat α) :=
   let N := S.shape.length
+  if n ≥ N then .error .reject else
   match getMttkrpFactors U n N with
   | .error e => .error e
   | .ok fs =>
-    if N < 2 || n ≥ N then .error .reject else
+    if N < 2 then .error .reject else
     let R := if n == 0 then (fs.getD 1 []).ncols else (fs.getD 0 []).ncols
+    if (List.range N).any (fun i => i != n && !(fs.getD i []).isShape (S.shape.getD i 0) R) then .error .reject else
     let len := S.shape.getD n 0
     let cols : Except Reject (List (List α)) := (List.range R).mapM fun r =>
       let Z : List (List α) := (List.range N).map fun i =>
         if i != n then (fs.getD i []).map (fun row => row.getD r 0) else []
-      -- a factor with fewer than R columns fails on `U[i][:, r]`
-      if (List.range N).any (fun i => i != n && (fs.getD i []).any (fun row => row.length ≤ r)) then .error .reject else
       match S.ttv Z none (some [Int.ofNat n]) with
       | .error e => .error e
       | .ok res => .ok (res.toColumn len)
@@ -144,10 +145,10 @@ def mttkrp [Add α] [Mul α] [Zero α] [BEq α] (S : Sparse α) (U : KOperand α
     | .error e => .error e
     | .ok cs => .ok ((List.range len).map fun i => cs.map fun c => c.getD i 0)
 
-/-- `sptensor.innerprod(sptensor)`. -/
+/-- `sptensor.innerprod(sptensor)` (shapes are compared before the no-nonzeros shortcut). -/
 def innerprodSparse [Add α] [Mul α] [Zero α] (S O : Sparse α) : Except Reject α :=
-  if S.nnz == 0 then .ok 0
-  else if S.shape != O.shape then .error .reject
+  if S.shape != O.shape then .error .reject
+  else if S.nnz == 0 then .ok 0
   else if O.nnz == 0 then .ok 0
   else if S.nnz < O.nnz then
     .ok ((S.subs.zip S.vals).map fun e => O.lookup e.1 * e.2).sum
@@ -156,8 +157,8 @@ def innerprodSparse [Add α] [Mul α] [Zero α] (S O : Sparse α) : Except Rejec
 
 /-- `sptensor.innerprod(tensor)` (after the fix for a single stored entry). -/
 def innerprodDense [Add α] [Mul α] [Zero α] (S : Sparse α) (D : Dense α) : Except Reject α :=
-  if S.nnz == 0 then .ok 0
-  else if S.shape != D.shape then .error .reject
+  if S.shape != D.shape then .error .reject
+  else if S.nnz == 0 then .ok 0
   else .ok ((S.subs.zip S.vals).map fun e => D.get e.1 * e.2).sum
 
 /-- Square of `sptensor.norm()`. -/
@@ -205,9 +206,16 @@ inductive ScaleFactor (α : Type) where
   | array (v : List α)
   deriving Repr, BEq, DecidableEq
 
-/-- `sptensor.scale(factor, dims)` (after the fixes for no / one stored entry).  The stored
-subscripts are kept; a zero factor leaves an explicit zero. -/
-def scale [Add α] [Mul α] [Zero α] (S : Sparse α) (F : ScaleFactor α) (dims : List Int) :
+/-- The stored entries scaled by a per-cell factor, zero products dropped
+(`vals = self.vals * …; nz = np.flatnonzero(vals); sptensor(subs[nz], vals[nz], shape)`). -/
+def scaleWith [Mul α] [Zero α] [BEq α] (S : Sparse α) (f : List Nat → α) : Sparse α :=
+  let ev := (S.subs.zip S.vals).map fun e => (e.1, e.2 * f e.1)
+  let nz := ev.filter fun e => !(e.2 == 0)
+  ⟨S.shape, nz.map (·.1), nz.map (·.2)⟩
+
+/-- `sptensor.scale(factor, dims)` (after the fixes for no / one stored entry and for explicit
+zeros: products that vanish are not stored). -/
+def scale [Add α] [Mul α] [Zero α] [BEq α] (S : Sparse α) (F : ScaleFactor α) (dims : List Int) :
     Except Reject (Sparse α) :=
   let N := S.shape.length
   match resolveDims N (some dims) with
@@ -217,15 +225,15 @@ def scale [Add α] [Mul α] [Zero α] (S : Sparse α) (F : ScaleFactor α) (dims
     match F with
     | .dense F =>
       if F.shape != want then .error .reject
-      else .ok ⟨S.shape, S.subs, (S.subs.zip S.vals).map fun e => e.2 * F.get (gather e.1 sdims)⟩
+      else .ok (S.scaleWith fun k => F.get (gather k sdims))
     | .sparse F =>
       if F.shape != want then .error .reject
-      else .ok ⟨S.shape, S.subs, (S.subs.zip S.vals).map fun e => e.2 * F.lookup (gather e.1 sdims)⟩
+      else .ok (S.scaleWith fun k => F.lookup (gather k sdims))
     | .array v =>
-      -- `factor.shape[0] != shapeArray[dims]` is only a truth value for a single mode
+      -- a plain array must be a vector of the length of the single selected mode
       if sdims.length != 1 then .error .reject
       else if [v.length] != want then .error .reject
-      else .ok ⟨S.shape, S.subs, (S.subs.zip S.vals).map fun e => e.2 * v.getD (e.1.getD (sdims.getD 0 0) 0) 0⟩
+      else .ok (S.scaleWith fun k => v.getD (k.getD (sdims.getD 0 0) 0) 0)
 
 end Sparse
 end Pyttb
